@@ -1067,8 +1067,125 @@ def flags_stream(ctx, res):
                 res.violate("C11:exempt-section-validated", "a section switched OFF by assignment was held to its rules (the flag's environment variable says on)", case)
 
 
+def hooks_and_order_stream(ctx, res):
+    """(a) a field validator that reads ANOTHER field is held to after the whole document is in: a load whose document lists the keys in
+    the unlucky order (the dependent key first) returns only if the rule holds in the loaded state — at the root, in list items given
+    as maps, appended maps; (b) a fresh instance of a config type (straight from its constructor, also of an application subclass) is
+    held to the item schema's rule when it is put into a list: required fields, schema validators; (c) an application-defined feature
+    flag (an inverted `disabled` switch, a text state) decides through its `is_feature_enabled` hook: an enabled section is held to its
+    rules, a disabled one is exempt"""
+    import cincoconfig as cc
+    from cincoconfig.core import FeatureFlagFieldMixin
+    from cincoconfig.support import validator as register
+    # (a)
+    rng_s = cc.Schema()
+    rng_s.lo = cc.IntField(default=0)
+    rng_s.hi = cc.IntField(default=100, validator=lambda cfg, v: v if cfg.lo is None or v >= cfg.lo else (_ for _ in ()).throw(ValueError("hi must be >= lo")))
+    s = cc.Schema()
+    s.lo = cc.IntField(default=0)
+    s.hi = cc.IntField(default=100, validator=lambda cfg, v: v if cfg.lo is None or v >= cfg.lo else (_ for _ in ()).throw(ValueError("hi must be >= lo")))
+    s.ranges = cc.ListField(rng_s, default=lambda: [])
+    for route, do in (("load_tree root", lambda c: c.load_tree({"hi": 5, "lo": 10})), ("loads json root", lambda c: c.loads(b'{"hi": 5, "lo": 10}', format="json")),
+                      ("loads json list item", lambda c: c.loads(b'{"ranges": [{"lo": 1, "hi": 2}, {"hi": 5, "lo": 10}]}', format="json")),
+                      ("append map", lambda c: c.ranges.append({"hi": 5, "lo": 10})), ("assign maps", lambda c: setattr(c, "ranges", [{"hi": 5, "lo": 10}]))):
+        cfg = s()
+        case = {"stream": "hooks-and-order", "what": "cross-field", "route": route}
+        res.case(stable(case), kind="hooks-and-order:cross-field")
+        try:
+            do(cfg)
+            returned = True
+        except Exception:  # noqa
+            returned = False
+        pairs = [(cfg.lo, cfg.hi)] + [(r.lo, r.hi) for r in cfg.ranges]
+        if returned and any(lo > hi for lo, hi in pairs):
+            res.violate("C11:registered-validator-not-run", "a load / insertion returned although a field validator that reads another field rejects the state that was loaded (it was only "
+                        "asked while the document was half in)", dict(case, state=pairs))
+    # (b)
+    ep = cc.Schema()
+    ep.url = cc.UrlField(required=True)
+    ep.verify = cc.BoolField(default=True)
+    ep.lo = cc.IntField(default=1)
+    ep.hi = cc.IntField(default=2)
+    log = []
+
+    @register(ep)
+    def ordered(cfg):
+        log.append(1)
+        if cfg.lo > cfg.hi:
+            raise ValueError("lo > hi")
+    Item = cc.make_type(ep, "C11Endpoint")
+
+    class MyItem(Item):
+        def describe(self):
+            return self.url
+    for cls in (Item, MyItem):
+        for defect, mk in (("required unset", lambda: cls()), ("schema validator", lambda: cls(url="http://x", lo=9, hi=3)), ("fine", lambda: cls(url="http://x"))):
+            for route in ("append", "insert", "setitem", "assign", "iadd"):
+                t = cc.Schema()
+                t.endpoints = cc.ListField(cls, default=lambda: [])
+                cfg = t()
+                cfg.endpoints = [cls(url="http://first")]
+                item = mk()
+                del log[:]
+                try:
+                    if route == "append":
+                        cfg.endpoints.append(item)
+                    elif route == "insert":
+                        cfg.endpoints.insert(0, item)
+                    elif route == "setitem":
+                        cfg.endpoints[0] = item
+                    elif route == "assign":
+                        cfg.endpoints = [item]
+                    else:
+                        cfg.endpoints += [item]
+                    returned = True
+                except Exception:  # noqa
+                    returned = False
+                case = {"stream": "hooks-and-order", "what": "fresh-instance", "class": cls.__name__, "defect": defect, "route": route}
+                res.case(stable(case), kind="hooks-and-order:fresh-instance")
+                if returned and defect != "fine":
+                    res.violate("C11:item-not-validated:fresh-instance", "a fresh instance of a config type that does not meet the item schema's rule was put into a configuration list without "
+                                "being checked", dict(case, validator_calls=len(log)))
+                elif not returned and defect == "fine":
+                    res.violate("C11:valid-rejected", "a valid fresh instance of a config type was refused by a configuration list", case)
+    # (c)
+    class DisabledSwitch(cc.FeatureFlagField):
+        def is_feature_enabled(self, cfg):
+            return not self.__getval__(cfg)
+
+    class StateFlag(cc.StringField, FeatureFlagFieldMixin):
+        def is_feature_enabled(self, cfg):
+            return self.__getval__(cfg) == "active"
+    for kind, mk, on_value, off_value in (("inverted switch", lambda: DisabledSwitch(default=False), False, True), ("text state", lambda: StateFlag(default="active"), "active", "standby")):
+        for value, enabled in ((on_value, True), (off_value, False)):
+            for route in ("load_tree", "validate", "collect"):
+                u = cc.Schema()
+                u.smtp.flag = mk()
+                u.smtp.host = cc.StringField(required=True)
+                ran = []
+                register(u.smtp)(lambda cfg, ran=ran: ran.append(1))
+                cfg = u()
+                errs = None
+                try:
+                    if route == "load_tree":
+                        cfg.load_tree({"smtp": {"flag": value}})
+                    else:
+                        cfg.smtp.flag = value
+                        errs = cfg.validate(collect_errors=(route == "collect"))
+                    returned = not errs
+                except Exception:  # noqa
+                    returned = False
+                case = {"stream": "hooks-and-order", "what": "application-flag", "flag": kind, "value": repr(value), "route": route}
+                res.case(stable(case), kind="hooks-and-order:application-flag")
+                if enabled and returned:
+                    res.violate("C11:required-unset-accepted", "a section enabled by its application-defined feature flag was accepted without its required field (the flag's own "
+                                "is_feature_enabled was not asked)", case)
+                elif not enabled and not returned:
+                    res.violate("C11:exempt-section-validated", "a section disabled by its application-defined feature flag was held to its rules", case)
+
 def run(ctx, n_quick=250, n_thorough=8000):
     res = Result()
+    guard(res, "C11", hooks_and_order_stream, ctx, res)
     tmp, keypath = P.setup(ctx)
     # run_stream generates schemas with C.gen_schema: use a schema hook
     orig = C.gen_schema
